@@ -203,13 +203,17 @@ class Verdict:
             json.dump(ev, f, indent=1, default=str)
         for sig, n in sorted(self.known_hit.items()):
             print("KNOWN-FINDING: property=%s %s [sig=%s, %d case(s) this run]" % (self.pid, self.known[sig], sig, n))
-        seen = set()
-        for sig, desc, path in self.new:
-            if sig in seen and len(seen) > 20:
+        # one line per distinct signature first, at most 12 lines in total
+        seen, shown = set(), 0
+        for sig, desc, path in sorted(self.new, key=lambda x: (x[0] in seen, 0)):
+            if shown >= 12 or (sig in seen and shown >= 4):
                 continue
             seen.add(sig)
+            shown += 1
             print("VIOLATION property=%s replay=%s" % (self.pid, path))
             print("  " + desc[:600])
+        if len(self.new) > shown:
+            print("  ... %d further violating cases (%d distinct signatures) written under replays/" % (len(self.new) - shown, len({s for s, _, _ in self.new})))
         sys.stdout.flush()
         return 1 if self.new else 0
 
